@@ -64,8 +64,9 @@ type SMFailure struct {
 
 // Truth is the chip's ground truth: what it did and what state it is in.
 type Truth struct {
-	Commands int // commands received
-	Resets   int
+	Commands       int // commands received
+	Resets         int
+	InternalErrors []string // panics caught in Process (answered 6F00); always empty unless the random source ran dry
 
 	BacCompleted bool
 	BacAttempts  int
@@ -246,6 +247,7 @@ func (c *Chip) Truth() Truth {
 	if c.sm != nil {
 		t.SM = SMState{Alive: true, Cipher: string(c.sm.alg), KSenc: clone(c.sm.ksEnc), KSmac: clone(c.sm.ksMac), SSC: clone(c.sm.ssc), Origin: c.sm.origin}
 	}
+	t.InternalErrors = append([]string(nil), c.truth.InternalErrors...)
 	t.PaceSharedSecret = clone(c.truth.PaceSharedSecret)
 	t.CaSharedSecret = clone(c.truth.CaSharedSecret)
 	t.AaChallenges = make([][]byte, len(c.truth.AaChallenges))
@@ -284,9 +286,16 @@ type result struct {
 func status(swv uint16) result { return result{sw: swv} }
 
 // Process handles one command APDU (wire bytes) and returns the response APDU.
-func (c *Chip) Process(raw []byte) []byte {
+func (c *Chip) Process(raw []byte) (resp []byte) {
 	c.mu.Lock()
 	defer c.mu.Unlock()
+	defer func() {
+		// an exhausted caller-supplied random source (or a bug) must not take the harness down
+		if r := recover(); r != nil {
+			c.truth.InternalErrors = append(c.truth.InternalErrors, fmt.Sprint(r))
+			resp = sw(nil, SWUnknown)
+		}
+	}()
 	idx := c.truth.Commands
 	c.truth.Commands++
 
